@@ -115,7 +115,9 @@ func runWorkload(wl Workload) []Window {
 			p := plans[k%active]
 			var o SOp
 			var h *ctree.Leaf
-			switch r.Pick(45, 14, 12, 16, 3, 5, 5) {
+			switch r.Pick(45, 14, 12, 16, 3, 5, 5, 6) {
+			case 7:
+				o = SOp{K: "queryerr", P: queryPaths[r.Intn(len(queryPaths))], V: int64(r.Intn(2))}
 			case 0:
 				o = SOp{K: "add", P: leafPaths[r.Intn(len(leafPaths))], V: int64(1 + r.Intn(9))}
 			case 1:
